@@ -131,6 +131,26 @@ def _configs(tier):
             A({'block': 'AnyEqual', 'n': n, 'w': w})
     if T:
         A({'block': 'AnyEqual', 'n': 5, 'w': 1})
+    # wide configurations (sizes that invite special-casing), boundary-value alphabet on the wide ports
+    for w in ((7, 8, 9, 16, 31, 32, 33, 63, 64, 65) if T else (8, 32, 33, 64)):
+        for b in ('And2', 'Or2', 'Xor2', 'Nand2', 'Nor2', 'BufEnable', 'Swap', 'Not', 'Buf', 'Repeat', 'AndBits', 'OrBits'):
+            A({'block': b, 'w': w, 'corner': 1})
+        for b in ('And', 'Or', 'Xor', 'Nor'):
+            A({'block': b, 'n': 3, 'w': w, 'corner': 1})
+        A({'block': 'Mux2', 'w': w, 'selw': 1, 'corner': 1})
+        A({'block': 'Mux', 'k': 1, 'w': w, 'corner': 1})
+        for bit in (0, w // 2, w - 1):
+            A({'block': 'Bit', 'w': w, 'bit': bit, 'corner': 1})
+        for high, low in ((w - 1, 0), (w - 1, w - 1), (w // 2, 1), (w - 2, w // 2)):
+            A({'block': 'Range', 'w': w, 'high': high, 'low': low, 'corner': 1})
+        for v in (0, 1, (1 << w) - 1, 1 << (w - 1), (1 << w) // 3):
+            A({'block': 'EqualConstant', 'w': w, 'v': v, 'corner': 1})
+            A({'block': 'NotEqualConstant', 'w': w, 'v': v, 'corner': 1})
+        for b in ('Equal', 'Comparator', 'ComparatorSignedUnsigned', 'Min2', 'Max2', 'SignedMin2', 'SignedMax2'):
+            A({'block': b, 'wa': w, 'wb': w, 'corner': 1})
+        A({'block': 'AnyEqual', 'n': 2, 'w': w, 'corner': 1})
+        for b in ('Select', 'OneHotMux', 'SelectDefault'):
+            A({'block': b, 'n': 2, 'w': w, 'corner': 1})
     return out
 
 
@@ -293,7 +313,7 @@ def run_shard(d):
             expected.add(tuple(sorted(e.items())))
         return e
 
-    res = comb.run_comb(d, build, ref, 'C08')
+    res = comb.run_comb(d, build, ref, 'C08', alphabets='corner' if d.get('corner') else None)
     if res.get('constructor_rejected'):
         # a refusal is not a violation, but a refusal of a configuration that the documented API is
         # expected to accept means nothing was checked: let the runner's vacuity guard stop (exit 2)
